@@ -15,7 +15,7 @@ applies=0; git apply $SRC/patch.diff 2>/tmp/mv/${P}_m$K.applyerr && applies=1
 demo_with=NA; suite=NA; demo_without=NA
 if [ $applies = 1 ]; then
   timeout 600 /venv/bin/python $DEMO >/tmp/mv/${P}_m$K.with.log 2>&1; demo_with=$?
-  /tmp/wt/tools/run_suite.sh $WT >/tmp/mv/${P}_m$K.suite.log 2>&1; suite=$?
+  /verif/tools/run_suite.sh $WT >/tmp/mv/${P}_m$K.suite.log 2>&1; suite=$?
   git checkout -- . ; git clean -fdq -e 'dulwich/*.so'
   timeout 600 /venv/bin/python $DEMO >/tmp/mv/${P}_m$K.without.log 2>&1; demo_without=$?
 fi
